@@ -249,7 +249,7 @@ def make(it):
                     x = seen.pop()
                     if x is c:
                         return True
-                    seen.extend(b for b in x.bases if isinstance(b, ClassVal))
+                    seen.extend(b for b in getattr(x, 'bases', ()) if isinstance(b, ClassVal))
                 return False
             if isinstance(v, (EnumVal, SEnum)):
                 return v.cls is c
@@ -280,6 +280,12 @@ def make(it):
     @reg('enumerate')
     def _enumerate(it, args, kw, n):
         start = args[1] if len(args) > 1 else kw.get('start', 0)
+        src = args[0]
+        if isinstance(src, SymList) and isinstance(start, int):
+            # pairs (index, element) over a list of symbolic length; the provenance of the list is kept
+            out = SymList(src.name + '.enumerate', src.length, lambda q, src=src: (mk_int(z3.simplify((q if isinstance(q, z3.ExprRef) else zi(q)) + start)), src.elem(q)), origin=src.origin)
+            out.enumerated = src
+            return out
         return [(i + start, v) for i, v in enumerate(it.iterate(args[0], n))]
 
     @reg('zip')
